@@ -30,13 +30,25 @@ Proof. exact paths_simple. Qed.
 Print Assumptions C28_paths_simple.
 
 (** "Relayed streams are never forwarded to a node already on their path,
-    except to deliver to the target": over the route table of C27 (any table
-    state), [path] = the request's path including the relaying node. *)
-Theorem C28_relay_no_revisit : forall connected t target path pick next,
-  relay_next_tab connected t target path pick = Some next ->
+    except to deliver to the target": the relay step of onRelay /
+    onRelayConnChain with GetNextHopRandomOrFind as coded — first lookup on
+    the table [t], on a miss a route discovery after which the table is ANY
+    [t'], second lookup — both lookups with the request's path (including the
+    relaying node) as skip list.  Any table states (C27 model), any picks. *)
+Theorem C28_relay_no_revisit : forall connected t t' find_ok target path pick1 pick2 next,
+  relay_step connected t t' find_ok target path pick1 pick2 = Some next ->
   connected next = true /\ (next = target \/ ~ In next path).
-Proof. exact relay_tab_no_revisit. Qed.
+Proof. exact relay_step_no_revisit. Qed.
 Print Assumptions C28_relay_no_revisit.
+
+(** GetNextHopRandomOrFind itself (exported; also used by the p2p layer): the
+    hop it returns is connected and outside the skip list, whichever of the
+    two lookups produced it. *)
+Theorem C28_next_hop_or_find_not_skipped : forall connected t t' find_ok target skips pick1 pick2 next,
+  next_hop_random_or_find connected t t' find_ok target skips pick1 pick2 = Some next ->
+  connected next = true /\ ~ In next skips.
+Proof. exact next_hop_random_or_find_ok. Qed.
+Print Assumptions C28_next_hop_or_find_not_skipped.
 
 (** "route discovery terminates", request AND response phase: in any
     execution from the empty network the number of deliveries and losses is
